@@ -87,6 +87,7 @@ fn main() {
     let known = load_known(&verif_dir);
     let code = dispatch!(id.as_str(), &ctx, &known, replay.as_deref(),
         "C03" => c03,
+        "C06" => c06,
         "C11" => c11,
         "C12" => c12,
         "C16" => c16,
